@@ -161,7 +161,7 @@ func vCompose(depth int, name string) string {
 	if depth == 0 {
 		return atoms[nd.Choice(name+".atom", len(atoms))]
 	}
-	switch nd.Choice(name+".form", 9) {
+	switch nd.Choice(name+".form", 10) {
 	case 0:
 		return vCompose(0, name+".0")
 	case 1:
@@ -178,6 +178,8 @@ func vCompose(depth int, name string) string {
 		return vCompose(depth-1, name+".v") + " BETWEEN " + vCompose(0, name+".lo") + " AND " + vCompose(depth-1, name+".hi")
 	case 7:
 		return vCompose(depth-1, name+".v") + " IN ( " + vCompose(depth-1, name+".e") + " )"
+	case 8:
+		return vCompose(depth-1, name+".l") + " OR " + vCompose(depth-1, name+".r")
 	default:
 		return "attribute_exists ( " + vCompose(depth-1, name+".x") + " )"
 	}
